@@ -210,7 +210,7 @@ func (w *World) Restart() {
 		w.Flush()
 	}
 	w.Srv.ShutdownNfs()
-	w.Srv = nfs.MakeNfs(w.Disk)
+	w.Srv = mkNfs(w.Disk)
 	w.Srv.Unstable = w.Unstable
 }
 
@@ -222,7 +222,7 @@ func (w *World) CrashRestart() {
 	log := w.Disk.Log
 	w.Disk = vdisk.New(img)
 	w.Disk.Log = log
-	w.Srv = nfs.MakeNfs(w.Disk)
+	w.Srv = mkNfs(w.Disk)
 	w.Srv.Unstable = w.Unstable
 }
 
@@ -244,7 +244,7 @@ func (w *World) Do(o fsx.Op) (r fsx.Reply, implFail bool, mis *reffs.Mismatch) {
 		// half-freed), then shutdown; a new server instance on the same disk
 		w.Flush()
 		w.Srv.Crash()
-		w.Srv = nfs.MakeNfs(w.Disk)
+		w.Srv = mkNfs(w.Disk)
 		w.Srv.Unstable = w.Unstable
 		return
 	case "DELETEALL":
